@@ -13,7 +13,7 @@ from pbt import findings, treecheck
 from pbt.common import Violation, run_enumeration, run_hypothesis
 
 ID = 'C06'
-RULE = ('Hypothesis: AnyFrom/AnyButFrom with 1-6 arguments and AnyBetween/AnyButBetween, arguments drawn from bracket/regex '
+RULE = ('Hypothesis: AnyFrom/AnyButFrom with 1-6 arguments (and with 8-100 arguments drawn from realistic alphabets) and AnyBetween/AnyButBetween, arguments drawn from bracket/regex '
         'metacharacters, ASCII alphanumerics, whitespace/control, code points 0 / 0x10FFFF / surrogate edges, BMP and astral '
         'characters and all token instances; invalid arguments (multi-character and empty strings, non-strings, non-token '
         'Pregex, start >= end, no arguments); plus complete enumeration of every named Any*/AnyBut* class, every token class, '
@@ -55,12 +55,31 @@ def ctor_strategy(invalid=True):
         return [['c', chr(max(0, min(0x10FFFF, ord(base) + o)))] for o in offs]
     clustered = st.tuples(st.one_of(char_st(), st.sampled_from(list('éĀ٣אΩ한\U0001F600~\x7f\x80'))),
                           st.lists(st.integers(-4, 4), min_size=2, max_size=6)).map(cluster)
+    import string
+    pools = [string.punctuation, string.printable, string.ascii_letters + string.digits + '-._', string.ascii_letters + string.digits + '+/=',
+             ''.join(chr(c) for c in range(0x20, 0x7f)), ''.join(chr(c) for c in range(0xA0, 0x180)), string.hexdigits + ':.-[]',
+             ''.join(chr(c) for c in range(0x3b1, 0x3ca)) + string.digits]
+    big = st.tuples(st.sampled_from(pools), st.integers(0, 2 ** 30), st.integers(8, 100), st.booleans()).map(_big_args)
     return st.one_of(
+        big.map(lambda xs: ['from', xs]), big.map(lambda xs: ['butfrom', xs]),
         clustered.map(lambda xs: ['from', xs]), clustered.map(lambda xs: ['butfrom', xs]),
         frm.map(lambda xs: ['from', xs]), frm.map(lambda xs: ['from', xs]), frm.map(lambda xs: ['butfrom', xs]),
         pair.map(lambda p: ['between', p[0], p[1]]), pair.map(lambda p: ['between', p[0], p[1]]),
         pair.map(lambda p: ['butbetween', p[0], p[1]]),
     )
+
+
+def _big_args(t):
+    """8-100 arguments from a realistic alphabet (punctuation, printable, hostname / base64 alphabets, Latin-1 ...): a
+    pseudo-random subset (derived from the drawn integer, so the case stays a pure function of Hypothesis's choices),
+    in shuffled or sorted order."""
+    import random
+    pool, seed, k, shuffled = t
+    rng = random.Random(seed)
+    chars = rng.sample(pool, min(k, len(pool)))
+    if not shuffled:
+        chars.sort()
+    return [['c', c] for c in chars]
 
 
 def named_cases():
